@@ -263,8 +263,8 @@ func (r *vOneByteReader) Read(p []byte) (int, error) {
 // and consumes the same number of bytes, as from a contiguous buffer
 func VerifC12_FragmentedReader() {
 	verif.NoPanic()
-	verif.Bound("C12 fragmented", "every byte string of length 1..3 (quick) / 1..4 (thorough) followed by a sentinel item, decoded into any (thorough: also int64 and []byte) from a contiguous buffer and from a reader delivering one byte per Read")
-	n := 1 + verif.Choose("n", 3+verif.Tier())
+	verif.Bound("C12 fragmented", "every byte string of length 1..3 followed by a sentinel item, decoded into any (thorough: also int64 and []byte) from a contiguous buffer and from a reader delivering one byte per Read")
+	n := 1 + verif.Choose("n", 3)
 	b := append(verif.Bytes("b", n), 0x18, 0x2a)
 	target := verif.Choose("target", 1+2*verif.Tier())
 	dec := func(r io.Reader) (any, error, any, error) {
